@@ -43,6 +43,8 @@ type Stats struct {
 	MultiErrEntries   int
 	TransitiveBlocked int
 	ShadowEvents      int
+	DeadCtxJobs       int // jobs submitted with a context of their own that was already done
+	DeadCtxReached    int // ... whose dependencies all succeeded (a worker received them)
 	ExactStates       int
 }
 
@@ -150,6 +152,36 @@ func (x *Exec) judge() (viols []Viol, st Stats) {
 		}
 	}
 
+	// jobs submitted with their own, already done context
+	deadKinds := [3]int{} // per kind: those whose dependencies all succeeded
+	anyDead := [3]bool{}
+	deadAll := [3]int{}
+	for i := range x.recs {
+		k := sc.Jobs[i].DeadCtx
+		if k == 0 {
+			continue
+		}
+		st.DeadCtxJobs++
+		anyDead[k] = true
+		deadAll[k]++
+		if !blockedBy[i] {
+			deadKinds[k]++
+			st.DeadCtxReached++
+		}
+		if ran[i] {
+			add("C09", "job %d was started although the context it was submitted with was done before it was submitted (%v)", i, x.deadCtx[k].Err())
+		}
+	}
+	deadKindOf := func(e error) int { // identity: the error values of the done contexts
+		switch e {
+		case context.Canceled:
+			return 1
+		case context.DeadlineExceeded:
+			return 2
+		}
+		return 0
+	}
+
 	hasGoexit := sc.hasGoexit() || sc.EmitGoexitAt > 0 // (an emitter that kills the loop's goroutine: only termination and leaks are judged)
 	cancelled := cancelReq != 0
 
@@ -196,7 +228,7 @@ func (x *Exec) judge() (viols []Viol, st Stats) {
 			e := x.waitErr
 			switch {
 			case ownerOf(e) < 0 && isCtxErr(e): // identity first: a job's own error may claim (Is) to be anything
-				if !cancelled {
+				if !cancelled && !anyDead[deadKindOf(e)] {
 					add("C07", "Wait returned %v but the context was never cancelled", e)
 				}
 			default:
@@ -240,19 +272,32 @@ func (x *Exec) judge() (viols []Viol, st Stats) {
 		}
 		if !cancelled {
 			for i := range x.recs {
-				if !blockedBy[i] && x.recs[i].starts.Load() != 1 {
+				if !blockedBy[i] && sc.Jobs[i].DeadCtx == 0 && x.recs[i].starts.Load() != 1 {
 					add("C08", "job %d has only successful dependencies but ran %d times (ContinueOnError)", i, x.recs[i].starts.Load())
 				}
 			}
 			if !hasGoexit {
 				seen := map[int]int{}
+				deadSeen := [3]int{}
 				for _, e := range entries {
 					o := ownerOf(e)
 					if o < 0 {
+						if k := deadKindOf(e); k > 0 {
+							deadSeen[k]++
+							continue
+						}
 						add("C08", "returned error has an entry that is no failed task's error: %q", e.Error())
 						continue
 					}
 					seen[o]++
+				}
+				for k := 1; k <= 2; k++ {
+					// (a job downstream of a failure whose own context is done may
+					// be reported with that context's error as well: it was skipped
+					// by cancellation too)
+					if deadSeen[k] < deadKinds[k] || deadSeen[k] > deadAll[k] {
+						add("C08", "the returned error has %d entries %q; %d jobs were submitted with a context of their own that was done with that error, %d of them with dependencies that all succeeded (the directive's context was never cancelled)", deadSeen[k], x.deadCtx[k].Err(), deadAll[k], deadKinds[k])
+					}
 				}
 				for i := range x.recs {
 					want := 0
